@@ -24,7 +24,7 @@ The schema tree is given extensionally, the way the canonical dump of a processe
 one `SNode` per node with the names from the root (the module name first).  Nothing here looks at
 how the library walks a path.
 
-Core Lean only; executable (driver ops `spec.target`, `spec.missing`).
+Core Lean only; executable (driver ops `spec.target`, `spec.missing`, `spec.refused`).
 -/
 namespace Goyang.Spec.DevTarget
 
@@ -68,6 +68,26 @@ def missingVerdict (reported : Bool) (changed : Nat) : String :=
   else if !reported && changed != 0 then "violates:not-reported+changed"
   else if !reported then "violates:not-reported"
   else "violates:changed"
+
+/-- The converse demand ("after processing, each deviation is reflected at its target"): a deviation
+whose argument names a node of the tree that the same modules yield WITHOUT the deviating modules
+(`names`, on the final tree of that run: every augment stage included) is applicable as far as its
+target goes, so a run that reports a missing target although EVERY deviation of the set names a node
+(`allNamed`; targets removed by an earlier not-supported of the same set do not count as named) has
+refused an applicable deviation; and when moreover no deviate statement of the set breaks a condition
+of §7.20.3.2 (`allowed`), ANY reported error is such a refusal.
+  `noTarget` = the run reports an error of the missing-target class, `anyErr` = the run reports errors. -/
+def refusedVerdict (allNamed allowed noTarget anyErr : Bool) : String :=
+  if allNamed && noTarget then "violates:target-exists-but-reported-missing"
+  else if allNamed && allowed && anyErr then "violates:applicable-deviation-refused"
+  else "holds"
+
+example : refusedVerdict true true true true = "violates:target-exists-but-reported-missing" := by decide
+example : refusedVerdict true false true true = "violates:target-exists-but-reported-missing" := by decide
+example : refusedVerdict true true false true = "violates:applicable-deviation-refused" := by decide
+example : refusedVerdict true false false true = "holds" := by decide   -- some §7.20.3.2 condition is broken
+example : refusedVerdict false true true true = "holds" := by decide    -- some deviation names no node
+example : refusedVerdict true true false false = "holds" := by decide
 
 /-! Worked examples (the base of the seeded demonstration): `top { mtu; choice transport { case tcp
 { port } ; container udp } }`. -/
